@@ -73,7 +73,7 @@ def grid_shape(dim: int, n_min: int, n_max: int, max_cells: int | None = None):
 # fields
 # ------------------------------------------------------------------------------------------------
 
-FIELD_KINDS = ["zero", "constant", "poly", "bumps", "spikes", "checker", "noise", "mixed"]
+FIELD_KINDS = ["zero", "constant", "poly", "bumps", "spikes", "checker", "noise", "mixed", "boxnoise"]
 
 
 def field_spec(kinds=None, max_mag_exp: int = 6, allow_zero: bool = True):
@@ -100,6 +100,9 @@ def field_spec(kinds=None, max_mag_exp: int = 6, allow_zero: bool = True):
                 min_size=1, max_size=6,
             ),
             "noise_key": st.integers(min_value=0, max_value=2**32 - 1),
+            # sub-box (fractions of the extents) outside of which a "boxnoise" field is EXACTLY zero (compact support,
+            # like the forcing of an immersed body)
+            "box": st.lists(st.tuples(floats(0.0, 0.7, 32), floats(0.1, 0.6, 32)).map(list), min_size=3, max_size=3),
         }
     )
 
@@ -168,6 +171,16 @@ def build_field(spec: dict, shape, dtype=np.float64, margin: int = 0) -> np.ndar
         out += add_checker()
     elif kind == "noise":
         out += add_noise()
+    elif kind == "boxnoise":
+        box = spec.get("box") or [[0.25, 0.4]] * 3
+        sl = []
+        for a, n in enumerate(shape):
+            lo_f, ext_f = box[(a + 3 - dim) % 3]
+            lo = min(n - 1, int(lo_f * n))
+            hi = min(n, max(lo + 1, lo + int(round(ext_f * n))))
+            sl.append(slice(lo, hi))
+        noise = add_noise()
+        out[tuple(sl)] += (noise + np.sign(noise) * 0.25)[tuple(sl)]
     elif kind == "mixed":
         out += add_poly() + add_bumps() + add_spikes() + 0.25 * add_noise()
     else:
@@ -189,7 +202,17 @@ def build_vector_field(specs, shape, dtype=np.float64, margin: int = 0) -> np.nd
 
 
 def vector_field_spec(ncomp: int, **kw):
-    return st.lists(field_spec(**kw), min_size=ncomp, max_size=ncomp)
+    """ncomp component specs; with probability ~1/4 all components share the kind and support box of the first one
+    (e.g. a vector field that is compactly supported as a whole)."""
+    base = st.lists(field_spec(**kw), min_size=ncomp, max_size=ncomp)
+
+    def couple(t):
+        specs, same = t
+        if same == 0 and len(specs) > 1:
+            specs = [dict(sp, kind=specs[0]["kind"], box=specs[0].get("box")) for sp in specs]
+        return specs
+
+    return st.tuples(base, st.integers(0, 3)).map(couple)
 
 
 # ------------------------------------------------------------------------------------------------
